@@ -5,6 +5,10 @@ import (
 	"fmt"
 	"sort"
 	"strings"
+	"time"
+
+	"github.com/buildbuildio/pebbles"
+	"github.com/buildbuildio/pebbles/planner"
 
 	"github.com/vektah/gqlparser/v2/ast"
 	"github.com/vektah/gqlparser/v2/parser"
@@ -31,6 +35,8 @@ type c06Case struct {
 	FaultAt   string `json:"fault_at,omitempty"`   // "" | "child" | "sibling": where a downstream failure is injected
 	FaultKind string `json:"fault_kind,omitempty"` // errors | status | transport
 	Repeat    int    `json:"repeat"`               // the same client request sent this many times
+	Config    string   `json:"config,omitempty"`   // "" | id-hint | cached-planner | cached-planner+id-hint: optional gateway features
+	Seq       []string `json:"seq,omitempty"`      // two-mutation documents: the operationName of each round (same gateway, same document text)
 }
 
 // rootSelections: response key → field name of the (flattened) root selection set of an operation.
@@ -78,7 +84,6 @@ func c06Check(ctx *Ctx, idx int, cs c06Case) {
 	ctx.Rep.Case(hx.Canon(cs), len(cf.F.Services) >= 2)
 	ctx.Rep.Count(fmt.Sprintf("max_batch=%d", cs.MaxBatch))
 	ctx.Rep.Count("fault:" + cs.FaultAt + "/" + cs.FaultKind)
-	want := rootSelections(op) // response key → field
 	owner := map[string]int{}
 	for _, f := range cf.F.Spec.Mutation {
 		owner[f.Name] = f.Owner
@@ -102,7 +107,18 @@ func c06Check(ctx *Ctx, idx int, cs c06Case) {
 			return nil
 		}
 	}
-	gw, err := cf.F.NewGateway(fed.GatewayConfig{MaxBatch: cs.MaxBatch})
+	gcfg := fed.GatewayConfig{MaxBatch: cs.MaxBatch}
+	if strings.Contains(cs.Config, "id-hint") {
+		gcfg.Options = append(gcfg.Options, pebbles.WithGetParentTypeFromIDFunc(idTypeHint))
+	}
+	if strings.Contains(cs.Config, "cached-planner") {
+		gcfg.Options = append(gcfg.Options, pebbles.WithPlanner(planner.NewCachedPlanner(time.Hour)))
+	}
+	ctx.Rep.Count("config:" + cs.Config)
+	for _, ft := range cs.Features {
+		ctx.Rep.Count("feature:" + ft)
+	}
+	gw, err := cf.F.NewGateway(gcfg)
 	if err != nil {
 		ctx.Rep.Count("gateway rejected federation")
 		return
@@ -111,9 +127,24 @@ func c06Check(ctx *Ctx, idx int, cs c06Case) {
 	if rep < 1 {
 		rep = 1
 	}
+	if len(cs.Seq) > 0 {
+		rep = len(cs.Seq)
+		ctx.Rep.Count("two-mutation document, alternating operationName")
+	}
 	for round := 0; round < rep; round++ {
 		cf.F.ResetLogs()
-		resp := fed.Do(gw, cs.Query, cs.Vars, cs.OpName)
+		opName := cs.OpName
+		if len(cs.Seq) > 0 {
+			n := cs.Seq[round]
+			opName = &n
+		}
+		_, rop, rerr := loadOp(cf.Merged.Schema, cs.Query, opName)
+		if rerr != nil || rop.Operation != ast.Mutation {
+			ctx.Rep.Count("not a valid mutation (generator)")
+			return
+		}
+		want := rootSelections(rop) // response key → field
+		resp := fed.Do(gw, cs.Query, cs.Vars, opName)
 		type exec struct{ svc int }
 		execs := map[string][]exec{} // response key → executions
 		for _, c := range cf.F.AllCalls() {
@@ -173,7 +204,7 @@ func c06Check(ctx *Ctx, idx int, cs c06Case) {
 		}
 	}
 	// correspondence: the model's sub-requests for the fault-free run (shared executor model)
-	if ctx.Driver == nil || cs.FaultAt != "" {
+	if ctx.Driver == nil || cs.FaultAt != "" || strings.Contains(cs.Config, "id-hint") {
 		return
 	}
 	dreq := driverCtx(cf, op, cs.coreCase)
@@ -222,8 +253,92 @@ func c06Fault(kind string) *fed.FaultAction {
 	return &fed.FaultAction{Kind: "errors", Data: []interface{}{map[string]interface{}{"message": "injected"}}}
 }
 
+// genC06Case: a mutation over a generated federation; String/ID argument values are sometimes
+// real entity ids (and variables are sometimes called `id`), and one case in three is a document
+// with TWO mutation operations sent several times with alternating operationName.
+func genC06Case(r *hx.Rand) (coreCase, []string, bool) {
+	seed := r.U64() % 1000000
+	cf, err := buildCoreFed(seed, false, false)
+	if err != nil || cf.Merged.Schema.Mutation == nil {
+		return coreCase{}, nil, false
+	}
+	oo := fed.SafeOps()
+	oo.EntityIDArgs = true
+	op := fed.GenOp(r, cf.Merged.Schema, cf.F.Data, "mutation", oo)
+	if op == nil {
+		return coreCase{}, nil, false
+	}
+	cs := coreCase{FedSeed: seed, Query: op.Query, Vars: op.Variables, OpName: op.OpName, Kind: "mutation", Features: op.Features}
+	if r.Chance(1, 3) && op.OpName == nil {
+		so := fed.SafeOps()
+		so.NamedFrags, so.Variables, so.MaxDepth, so.EntityIDArgs = false, false, 2, true
+		sib := fed.GenOp(r, cf.Merged.Schema, cf.F.Data, "mutation", so)
+		if sib != nil && sib.OpName == nil {
+			main := namedOperation(op.Query, "mutation", "Main")
+			sibQ := namedOperation(sib.Query, "mutation", "Sibling")
+			if main != "" && sibQ != "" {
+				name := "Main"
+				cs.Query, cs.OpName = sibQ+"\n"+main, &name
+				cs.Features = append(cs.Features, "two-mutations")
+				var seq []string
+				for i, n := 0, r.Range(2, 4); i < n; i++ {
+					seq = append(seq, hx.Pick(r, []string{"Main", "Sibling"}))
+				}
+				return cs, seq, true
+			}
+		}
+	}
+	return cs, nil, true
+}
+
+// genC06IDVar: directed stream — a mutation whose String/ID argument is passed through a client
+// variable literally called `id` (the name the executor uses for its own follow-up lookups) and
+// whose value is the id of an existing entity (what an id-hint function recognises).
+func genC06IDVar(r *hx.Rand) (coreCase, bool) {
+	seed := r.U64() % 1000000
+	cf, err := buildCoreFed(seed, false, false)
+	if err != nil || cf.Merged.Schema.Mutation == nil {
+		return coreCase{}, false
+	}
+	ids := cf.F.Data.AllEntityIDs()
+	if len(ids) == 0 {
+		return coreCase{}, false
+	}
+	var fields []*ast.FieldDefinition
+	for _, fd := range cf.Merged.Schema.Mutation.Fields {
+		if !strings.HasPrefix(fd.Name, "__") {
+			fields = append(fields, fd)
+		}
+	}
+	for _, pi := range r.Perm(len(fields)) {
+		fd := fields[pi]
+		for _, a := range fd.Arguments {
+			if a.Type.Elem != nil || (a.Type.NamedType != "String" && a.Type.NamedType != "ID") {
+				continue
+			}
+			ok := true
+			for _, b := range fd.Arguments {
+				if b != a && b.Type.NonNull {
+					ok = false // keep the stream simple: no other required argument
+				}
+			}
+			if !ok {
+				continue
+			}
+			sel := ""
+			if d := cf.Merged.Schema.Types[fd.Type.Name()]; d != nil && d.IsCompositeType() {
+				sel = " { __typename }"
+			}
+			q := fmt.Sprintf("mutation($id: %s) { %s(%s: $id)%s }", a.Type.String(), fd.Name, a.Name, sel)
+			return coreCase{FedSeed: seed, Query: q, Vars: map[string]interface{}{"id": hx.Pick(r, ids)}, Kind: "mutation",
+				Features: []string{"variable-named-id", "entity-id-argument", "directed:id-variable"}}, true
+		}
+	}
+	return coreCase{}, false
+}
+
 func runC06(ctx *Ctx) error {
-	ctx.Rep.Rule = "case = (generated federation with Mutation roots in several services, valid mutation operation, downstream batch size 1..3 or default, optional injected failure in a child or sibling step, 1..3 repeats) " +
+	ctx.Rep.Rule = "case = (generated federation with Mutation roots in several services, valid mutation operation, downstream batch size 1..3 or default, optional injected failure in a child or sibling step, 1..3 repeats, optional gateway features (id hint, caching planner), two-mutation documents with alternating operationName, argument values that are entity ids, variables called `id`) " +
 		"through the real gateway over counting fake services; oracle: per client request each selected root field executed exactly once, at its declaring service, under the mutation keyword; follow-ups are queries; " +
 		"distinct = distinct case; non-trivial = ≥2 services"
 	cases := 400
@@ -233,14 +348,24 @@ func runC06(ctx *Ctx) error {
 	for i, cs := range loadCorpus("C06") {
 		c06Check(ctx, i, c06Case{coreCase: cs, Repeat: 2})
 	}
+	for k, n := 0, 0; n < cases/10 && k < cases; k++ {
+		r := ctx.Rand.Fork()
+		cc, ok := genC06IDVar(r)
+		if !ok {
+			continue
+		}
+		n++
+		c06Check(ctx, 900000+k, c06Case{coreCase: cc, Repeat: 1, Config: hx.Pick(r, []string{"id-hint", "id-hint", "cached-planner+id-hint", ""})})
+	}
 	made := 0
 	for k := 0; made < cases && k < cases*6; k++ {
 		r := ctx.Rand.Fork()
-		cc, ok := genCoreCase(r, false, false, "mutation")
+		cc, seq, ok := genC06Case(r)
 		if !ok || cc.Kind != "mutation" {
 			continue
 		}
-		cs := c06Case{coreCase: cc, Repeat: r.Range(1, 3)}
+		cs := c06Case{coreCase: cc, Repeat: r.Range(1, 3), Seq: seq}
+		cs.Config = hx.Pick(r, []string{"", "", "id-hint", "cached-planner", "cached-planner+id-hint"})
 		if r.Chance(1, 2) {
 			cs.MaxBatch = r.Range(1, 3)
 		}
